@@ -1905,6 +1905,30 @@ def r_beam(m, rep, R):
     ok = len(pops) == 1 and 1 <= len(tops) <= 2 and bool(pop_i) and pop_i[0] >= 1 and stmts[pop_i[0]] is pops[0] and all(
         any(t_ in list(st.walk()) for st in stmts[:pop_i[0]]) for t_ in tops) and all(
         st.kind == 'DeclStmt' or any(t_ in list(st.walk()) for t_ in tops) for st in stmts[:pop_i[0]])
+    if not ok and len(pops) == 1 and 1 <= len(tops) <= 2 and bool(pop_i) and stmts[pop_i[0]] is pops[0]:
+        # the candidate is looked at first and taken off the queue only once it is known to be inside the beam (the one that
+        # ends the beam stays in the queue): the same candidates in the same order -- provided nothing reads the word's
+        # queue once its candidate loop is over, and nothing between the read and the pop touches the queue or can leave
+        # the round without ending the loop
+        between = stmts[:pop_i[0]]
+        tops_first = all(any(t_ in list(st.walk()) for st in between) for t_ in tops)
+        qname = m.scored
+        skips = [x for st in between for x in st.walk() if x.kind in ('ContinueStmt', 'ReturnStmt', 'GotoStmt')]
+        after_loop = []
+        leaf_body = cxx.for_parts(m.leaf_loop)[3]
+        seen_loop = False
+        for st in leaf_body.kids:
+            if st is cand_loop or cand_loop in list(st.walk()):
+                seen_loop = True
+                continue
+            if seen_loop:
+                after_loop += [x for x in st.walk() if x.kind == 'DeclRefExpr' and x.ref == qname]
+        idx_top = {id(s_): i_ for i_, s_ in enumerate(m.top)}
+        for st in m.top[idx_top[id(m.leaf_loop)] + 1:]:
+            after_loop += [x for x in st.walk() if x.kind == 'DeclRefExpr' and x.ref == qname]
+        reads_of_top = [x for st in between for x in st.walk() if x.kind == 'CXXMemberCallExpr' and strip(x.kids[0]).name in ('top', 'pop', 'push', 'emplace', 'size', 'empty')
+                        and canon(term(strip(x.kids[0]).kids[0], env)) == canon(q) and x not in tops]
+        ok = tops_first and not skips and not after_loop and not reads_of_top
     rep.check(ok, R, _w(body.line), 'beam:one-pop', 'each iteration reads the best remaining candidate and removes it (top(); pop())',
               'candidate loop body does not start with top(); pop() on the word\'s queue')
     sc = _leaf_candidate(m, s)
